@@ -27,12 +27,14 @@ def doBatch (batches : List Str) (args : List Str) : Option (List Str) :=
       if a0.drop 1 ∈ batches then some (batches.filter (fun x => x != a0.drop 1)) else none
     else none
 
+/-- does the `batch` tag name no open batch? -/
+def undeclaredTag (batches : List Str) : Option Str → Bool
+  | some t => !(batches.contains t)
+  | none => false
+
 /-- `feedMsg` of a message whose `batch` tag (if any) is `tag` -/
 def BBot.feed (bb : BBot) (tag : Option Str) (m : Msg) : BBot × Exc :=
-  let undeclared := match tag with
-    | some t => !(bb.batches.contains t)
-    | none => false
-  let r := bb.bot.feedT undeclared m
+  let r := bb.bot.feedT (undeclaredTag bb.batches tag) m
   match r.2 with
   | .none =>
     if cmdOf m.cmd = .batch then
